@@ -59,7 +59,9 @@ def scenarios() -> Dict[str, Tuple[Scenario, Dict[Any, Any]]]:
         ("q", "call_function", E(F + "linear"), ("%r1", "%w2"), {}),
         ("s", "call_function", E(F + "softmax"), ("%q",), {"dim": -1}),
         ("mm", "call_function", E("torch.matmul"), ("%s", "%q"), {}),
-        ("r2", "call_function", ADD, ("%r1", "%mm"), {}),  # skip is a residual output; branch has softmax
+        ("o2", "call_function", E(F + "linear"), ("%mm", "%w2"), {}),
+        ("d2", "call_function", E(F + "dropout"), ("%o2",), {"p": 0.0}),
+        ("r2", "call_function", ADD, ("%r1", "%d2"), {}),  # skip is a residual output; softmax three ops deep in the branch
         ("ro", "call_function", E(F + "linear"), ("%r2", "%w3"), {}),  # no later residual: unconstrained
         ("p", "call_function", ADD, ("%ro", "%z"), {}),  # plain add after the last residual
         ("t", "call_function", E("torch.tanh"), ("%p",), {}),  # unmapped op: untouched
